@@ -1268,7 +1268,7 @@ func metadataHeaders(headers map[string][]string, at time.Time, sizeLimit int) (
 			// always fit for that, the fields of a browser form upload are
 			// arbitrary bytes:
 			value := hv[0]
-			if len(hv) > 1 && strings.HasPrefix(hk, "X-Amz-Meta-") {
+			if len(hv) > 1 && (strings.HasPrefix(hk, "X-Amz-Meta-") || hk == "Content-Encoding") {
 				// Sent on several lines, which is another way of writing one
 				// header with a comma separated value (RFC 7230, 3.2.2):
 				value = strings.Join(hv, ",")
